@@ -38,7 +38,8 @@ class Ty:
         return s + ("?" if self.nullable else "")
 
 
-_PRIM = {"int": "int", "float": "float", "bool": "bool", "str": "str", "None": "none", "NoneType": "none",
+_PRIM = {"NonNegativeInt": "int", "PositiveInt": "int",   # pydantic constrained ints: ints (range constraint not assumed)
+         "int": "int", "float": "float", "bool": "bool", "str": "str", "None": "none", "NoneType": "none",
          "list": "list", "List": "list", "dict": "dict", "Dict": "dict", "set": "set", "Set": "set",
          "tuple": "tuple", "Tuple": "tuple", "Sequence": "list", "Iterable": "list", "Any": "any",
          "Callable": "callable", "object": "any", "Decimal": "float", "Mapping": "dict", "MutableMapping": "dict",
